@@ -64,12 +64,15 @@ impl Issuer {
 		let mut keys = vec![];
 		let mut certs = vec![];
 		let root_key = ec_key()?;
-		let root = ca_cert("verif mock root", &root_key, None)?;
+		// distinct subject per instance: chain building looks issuers up by name
+		static N: std::sync::atomic::AtomicUsize = std::sync::atomic::AtomicUsize::new(0);
+		let n = N.fetch_add(1, std::sync::atomic::Ordering::SeqCst);
+		let root = ca_cert(&format!("verif mock root {}-{n}", std::process::id()), &root_key, None)?;
 		keys.push(root_key);
 		certs.push(root);
 		for i in 1..depth {
 			let k = ec_key()?;
-			let c = ca_cert(&format!("verif mock intermediate {i}"), &k, Some((&certs[i - 1], &keys[i - 1])))?;
+			let c = ca_cert(&format!("verif mock intermediate {i} of {}-{n}", std::process::id()), &k, Some((&certs[i - 1], &keys[i - 1])))?;
 			keys.push(k);
 			certs.push(c);
 		}
